@@ -3,3 +3,24 @@ reg("C02", "model_checking",
     "Every way of cutting each generated well-formed response into reads, and every truncation point, is enumerated on the real sync and async code (pool -> connection -> h11/h2) by explicit-state search: states are (wire position, full parser/connection/pool heap, stack locals), merged by canonical fingerprint; the frontier drains, so the run is exhaustive for each response of the corpus. Right level because the quantifier (all segmentations) is finite per response and the parser state space is linear in the response length.",
     "Trusted: the simulated NetworkBackend (documented interface only), the response grammar/ground truth in mc/props/c02.py, fingerprint completeness (guarded by no-fallback rule and merge on/off self-test). Bounded: corpus of short responses; nothing claimed for multi-kilobyte headers.",
     "DESIGN.md 5 C02")
+_CONC_NOTE = ("Trusted: virtual asyncio loop (FIFO ready queue kept, external events chosen by the explorer), simulated backend and peers, "
+              "fingerprint completeness (no-fallback rule). Bounded: 2-4 callers, <=3 origins, limits <=2, <=1 fault and <=1 cancellation per execution; "
+              "sync pool under threads is C08's business.")
+reg("C01", "model_checking", "explicit-state exploration of the real AsyncConnectionPool on a virtual event loop (all event orders, state merging), token-echo oracle",
+    "All orders of external events for each small concurrent scenario (HTTP/1.1 keep-alive framings, HTTP/2 multiplexing, proxies) are explored on the real pool and connections; every caller's status/body is compared with the token the independent peer echoed and the peer checks that a connection is reused only after the previous exchange finished both ways.",
+    _CONC_NOTE, "DESIGN.md 5 C01")
+reg("C04", "model_checking", "explicit-state exploration on a virtual event loop with a limit invariant evaluated after every loop iteration",
+    "The invariant (len(pool.connections) <= N and open streams on behalf of pooled connections + connects in flight <= N) is evaluated after every loop iteration of every explored execution, for all event orders of each scenario, with faults/cancellations/evictions.",
+    _CONC_NOTE, "DESIGN.md 5 C04")
+reg("C05", "fault_enumeration", "exhaustive fault-point and cancellation-point enumeration (deviation-bounded search) on the real code, sequential and virtual-loop worlds",
+    "Every network operation of every connection type x every documented fault kind (both variants), and every loop-iteration boundary x {scope, native} cancellation (async), alone and with a second caller; afterwards pool bookkeeping, stuck-connection predicate and a behavioural capacity probe are checked.",
+    _CONC_NOTE, "DESIGN.md 5 C05/C06")
+reg("C06", "fault_enumeration", "exhaustive fault-point and cancellation-point enumeration with a stream-ownership ledger oracle",
+    "Same explorations as C05; oracle: at quiescence every open simulated stream is owned by a pooled connection and after pool.close() every stream ever opened is closed.",
+    _CONC_NOTE, "DESIGN.md 5 C05/C06")
+reg("C07", "model_checking", "explicit-state exploration on a virtual event loop with deadlock / serviceable-waiter detection",
+    "All event orders per scenario with pool timeout None, so a lost wake-up is a deadlock of the controlled scheduler; plus the invariant that no queued request is serviceable at quiescence.",
+    _CONC_NOTE, "DESIGN.md 5 C07")
+reg("C19", "exploration", "bounded-exhaustive enumeration of a URL grammar product against the RFC 3986 reference splitter",
+    "Pure functions: the full product of URL components (about 70k URLs, str and bytes) plus origin pairs and header/content laws is enumerated; no sampling.",
+    "Trusted: the RFC 3986 appendix-B regex reference in mc/props/c19.py. Bounded by the component alphabets listed in the evidence.", "DESIGN.md 5 C19")
